@@ -19,3 +19,18 @@ Lemma incoming_request_order :
   incoming_request_steps = [("handshake.ResponseUsingReaderWriter", true); ("reader.ReadMsg", true); ("bytes.Equal", true);
                             ("contact.CheckFormat", true); ("c.metadataStore.ContactRequestIncomingReceived", true)].
 Proof. reflexivity. Qed.
+
+(* internal/handshake: each role performs its five steps in the order of the protocol, every step's failure
+   returns at once, and the ONLY return without an error is the one at the very end (Model: [requester] /
+   [responder] report success only after the last frame was accepted, [requester_vs_stalling] /
+   [responder_vs_stalling]: no success while a frame is still missing) *)
+Lemma requester_role_shape :
+  requester_role_steps = [("hc.sendRequesterHello", true); ("hc.receiveResponderHello", true); ("hc.sendRequesterAuthenticate", true);
+                          ("hc.receiveResponderAccept", true); ("hc.sendRequesterAcknowledge", true)] /\
+  requester_role_returns = ["error"; "error"; "error"; "error"; "error"; "nil"].
+Proof. split; reflexivity. Qed.
+Lemma responder_role_shape :
+  responder_role_steps = [("hc.receiveRequesterHello", true); ("hc.sendResponderHello", true); ("hc.receiveRequesterAuthenticate", true);
+                          ("hc.sendResponderAccept", true); ("hc.receiveRequesterAcknowledge", true)] /\
+  responder_role_returns = ["nil, error"; "nil, error"; "nil, error"; "nil, error"; "nil, error"; "hc.peerAccountID, nil"].
+Proof. split; reflexivity. Qed.
